@@ -39,7 +39,7 @@ def run(ctx, facts):
         ctx.rule(k, v)
     for k in ("GUARD", "TIE", "PAIR", "PROV", "SEED"):
         ctx.rule(k, C04.RULES[k])
-    for k in ("DENS-target", "DENS-source", "BOOKKEEPING", "EMPTY"):
+    for k in ("DENS-target", "DENS-source", "DENS-SEED", "BOOKKEEPING", "EMPTY"):
         ctx.rule(k, C09.RULES[k])
     ctx.extra["explanation"] = (
         "C08 is an expectation over hash randomness at every fill ratio; that is NOT decided. Decided are the structural "
@@ -54,6 +54,7 @@ def run(ctx, facts):
         C04._dens_sketch(ctx, facts, prefix)
         bin_rule(ctx, facts, prefix)
         C09.dens_rules(ctx, facts, prefix)
+        C09.dens_seed(ctx, facts, prefix)
         C09.bookkeeping(ctx, facts, prefix)
         C09.empty_guard(ctx, facts, prefix)
     ctx.rule("REINIT", C09.RULES["REINIT"])
